@@ -64,3 +64,28 @@ func init() {
 		},
 	})
 }
+
+func init() {
+	register(&propDef{
+		ID: "TABTEST", Explanation: "wip", Rule: "wip",
+		Run: func(c *Ctx, r *Result) {
+			n := runEnumSwitches(c, r, "TAB", []string{"jsonata", "jparse", "jlib", "jxpath", "jtypes"}, nil)
+			r.Note("enum switches %d", n)
+			runRegistrationSwitch(c, r, "TAB")
+			runErrMsgs(c, r, "TAB", "jparse", 27)
+			runErrMsgs(c, r, "TAB", "jsonata", 20)
+			runDateTables(c, r, "TAB")
+			runEvalDispatch(c, r, "TAB")
+			runJSONLiterals(c, r, "TAB")
+		},
+	})
+}
+
+func init() {
+	register(&propDef{
+		ID: "PRATTTEST", Explanation: "wip", Rule: "wip",
+		Run: func(c *Ctx, r *Result) {
+			runPRATT(c, r, "PRATT")
+		},
+	})
+}
